@@ -943,7 +943,8 @@ class ProcessSyncGroup(SyncGroup, SimulatedEBPF):
             loop.add_reader(fd, future.set_result, None)
             try:
                 await future
-            except CancelledError as error:
+            except CancelledError as e:
+                error = e  # remember: `as error` would unbind it again
                 self.runningValue.value = False
             else:
                 if error is None:
